@@ -1,6 +1,10 @@
 """Run the registered checks against a seeded change.
 
-usage: seeded.py <dir with patch.diff, demo.py, meta.json> [--all | --props C01,C07] [--tier quick]
+usage: seeded.py <dir with patch.diff, demo.py, meta.json> [--all | --props C01,C07] [--tier quick] [--tree <checkout>]
+
+With --tree the patch is applied to that checkout (a scratch worktree of /repo at the same commit) instead of /repo, the
+demonstration and the test suite run there and the checks run with VERIF_REPO=<checkout>: /repo itself is not touched, so
+other work that reads /repo is not disturbed.
 
 Applies the patch to /repo (which must be clean), runs the demonstration and the checks, and undoes the
 patch straight afterwards (git checkout -- .), whatever happens.  Writes <dir>/result.json.
@@ -17,8 +21,13 @@ def sh(cmd, **kw):
 
 
 def main():
+    global REPO
     d = os.path.abspath(sys.argv[1])
     args = sys.argv[2:]
+    scratch = None
+    for i, a in enumerate(args):
+        if a == "--tree":
+            scratch = REPO = os.path.abspath(args[i + 1])
     meta = json.load(open(os.path.join(d, "meta.json")))
     props = [meta["property"]]
     tier = "quick"
@@ -34,20 +43,24 @@ def main():
     res = {"property": meta["property"], "title": meta.get("title"), "checks": {}}
     demo = os.path.join(d, "demo.py")
     if os.path.exists(demo):
-        res["demo_exit_clean"] = sh("cd %s && PYTHONPATH=%s/harness/netCDF4_standin /venv/bin/python %s" % (REPO, VERIF, demo), timeout=300).returncode
+        res["demo_exit_clean"] = sh("cd %s && PYTHONPATH=%s:%s/harness/netCDF4_standin /venv/bin/python %s" % (REPO, REPO, VERIF, demo), timeout=300).returncode
     r = sh("git -C %s apply %s" % (REPO, os.path.join(d, "patch.diff")))
     if r.returncode != 0:
         print("patch does not apply:", r.stdout); sys.exit(2)
     try:
         if os.path.exists(demo):
-            r = sh("cd %s && PYTHONPATH=%s/harness/netCDF4_standin /venv/bin/python %s" % (REPO, VERIF, demo), timeout=300)
+            r = sh("cd %s && PYTHONPATH=%s:%s/harness/netCDF4_standin /venv/bin/python %s" % (REPO, REPO, VERIF, demo), timeout=300)
             res["demo_exit_patched"] = r.returncode
         if "--notests" not in args:
-            r = sh("cd %s && ./baseline.sh 2>&1 | tail -1" % VERIF, timeout=1800)
+            if scratch:
+                r = sh("cd %s && PYTHONPATH=%s /venv/bin/python -m pytest -ra -q -p no:cacheprovider --timeout=900 "
+                       "--continue-on-collection-errors 2>&1 | tail -1" % (REPO, REPO), timeout=1800)
+            else:
+                r = sh("cd %s && ./baseline.sh 2>&1 | tail -1" % VERIF, timeout=1800)
             res["tests_patched"] = r.stdout.strip().splitlines()[-1] if r.stdout.strip() else ""
         for p in props:
             t0 = time.time()
-            r = sh("cd %s && ./check %s --tier %s" % (VERIF, p, tier), timeout=3600)
+            r = sh("cd %s && VERIF_REPO=%s ./check %s --tier %s" % (VERIF, REPO, p, tier), timeout=3600)
             lines = [l for l in r.stdout.splitlines() if l.startswith("VIOLATION") or l.startswith("KNOWN-FINDING")]
             res["checks"][p] = {"exit": r.returncode, "lines": lines[:6], "seconds": round(time.time() - t0, 1)}
             print(p, "exit", r.returncode, lines[:2])
